@@ -311,6 +311,12 @@ func (c *Ctx) seq02(all []string) {
 			if len(r.out) > 0 {
 				m = r.out[c.Rng.Intn(len(r.out))]
 			}
+			// un-modelled operations and raw setters on the current mesh (WF oracle on what they return)
+			if c.Rng.Intn(3) == 0 {
+				if o := c.extraOp(m); o != nil && c.Rng.Intn(2) == 0 {
+					m = *o
+				}
+			}
 		}
 	}
 }
